@@ -142,7 +142,10 @@ class Gen:
             en = rng.sample(pool, min(k, len(pool))) if pool else []
             if rng.random() < 0.05:
                 en.append("bogus")
-            error = ["factory", en] + (["lambda"] if rng.random() < 0.3 else [])
+            # some parameters of the factory have a default value (the call's value must reach them all the same)
+            dflt = [n for n in en if n != "bogus" and rng.random() < 0.3]
+            en = [n for n in en if n not in dflt] + dflt
+            error = ["factory", en, "lambda" if rng.random() < 0.3 else "def", dflt]
             rr = rng.random()
             user["error"][str(cid)] = ["exn", exc_tag(rng)] if rr < 0.8 else (["other"] if rr < 0.9 else ["raise", exc_tag(rng)])
         lam = kind == "plain" and rng.random() < 0.35
@@ -336,7 +339,8 @@ def cq_error(e):
         return "(EClass %d)" % e[1]
     if e[0] == "instance":
         return "(EInstance %d)" % e[1]
-    return "(EFactory %s)" % C.cq_list([C.cq_str(n) for n in e[1]])
+    # the library requires a value of the call for every parameter of an error factory, with or without a default
+    return "(EFactory %s %s)" % (C.cq_list([C.cq_str(n) for n in e[1]]), C.cq_list([C.cq_str(n) for n in e[1]]))
 
 
 def cq_contract(c):
